@@ -162,7 +162,9 @@ benign("c06-nth-via-advance-helper-consuming", ["C06", "C05", "C03"], [("src/ite
 mutant("c06-nth-via-advance-helper-not-consuming", ["C06"], [("src/iter.rs", '}\n\nimpl<T, N: ArrayLength> IntoIterator for GenericArray<T, N> {', '    fn advance_front(&mut self, n: usize) -> Result<(), usize> {\n        let len = self.len();\n        if n > len {\n            return Err(n - len);\n        }\n        let m = n;\n        let skipped = self.index..(self.index + m);\n        self.index = skipped.end;\n        unsafe {\n            ptr::drop_in_place(self.array.get_unchecked_mut(skipped));\n        }\n        if n > len {\n            Err(n - len)\n        } else {\n            Ok(())\n        }\n    }\n}\n\nimpl<T, N: ArrayLength> IntoIterator for GenericArray<T, N> {'), ("src/iter.rs", '    fn nth(&mut self, n: usize) -> Option<T> {\n        // First consume values prior to the nth.\n        let next_index = self.index + cmp::min(n, self.len());\n\n        // Advance first, so the skipped elements are no longer owned by the\n        // iterator if one of their destructors panics.\n        let skipped = self.index..next_index;\n        self.index = next_index;\n\n        unsafe {\n            ptr::drop_in_place(self.array.get_unchecked_mut(skipped));\n        }\n\n        self.next()\n    }\n', '    fn nth(&mut self, n: usize) -> Option<T> {\n        self.advance_front(n).ok()?;\n        self.next()\n    }\n')], "C06.S")
 benign("c03-nth-via-advance-helper-not-consuming-keeps-ownership", ["C03", "C05"], [("src/iter.rs", '}\n\nimpl<T, N: ArrayLength> IntoIterator for GenericArray<T, N> {', '    fn advance_front(&mut self, n: usize) -> Result<(), usize> {\n        let len = self.len();\n        if n > len {\n            return Err(n - len);\n        }\n        let m = n;\n        let skipped = self.index..(self.index + m);\n        self.index = skipped.end;\n        unsafe {\n            ptr::drop_in_place(self.array.get_unchecked_mut(skipped));\n        }\n        if n > len {\n            Err(n - len)\n        } else {\n            Ok(())\n        }\n    }\n}\n\nimpl<T, N: ArrayLength> IntoIterator for GenericArray<T, N> {'), ("src/iter.rs", '    fn nth(&mut self, n: usize) -> Option<T> {\n        // First consume values prior to the nth.\n        let next_index = self.index + cmp::min(n, self.len());\n\n        // Advance first, so the skipped elements are no longer owned by the\n        // iterator if one of their destructors panics.\n        let skipped = self.index..next_index;\n        self.index = next_index;\n\n        unsafe {\n            ptr::drop_in_place(self.array.get_unchecked_mut(skipped));\n        }\n\n        self.next()\n    }\n', '    fn nth(&mut self, n: usize) -> Option<T> {\n        self.advance_front(n).ok()?;\n        self.next()\n    }\n')])
 benign("c06-fold-refactored", ["C06"], [("src/iter.rs", "    fn fold<B, F>(mut self, init: B, mut f: F) -> B\n    where\n        F: FnMut(B, Self::Item) -> B,\n    {", "    fn fold<B, F>(mut self, init: B, mut f: F) -> B\n    where\n        F: FnMut(B, Self::Item) -> B,\n    {\n        let init = init;"), ("src/iter.rs", "                *index += 1;\n\n                f(acc, value)", "                *index += 1;\n\n                let r = f(acc, value);\n                r")])
-benign("c06-nth-min-form", ["C06"], [("src/iter.rs", "let next_index = self.index + cmp::min(n, self.len());", "let next_index = cmp::min(self.index + n, self.index_back);")])
+# (this one was registered as a benign variant until round 14: `index + n` overflows for n > usize::MAX - index - it is seed S164's change)
+mutant("c06-nth-min-form", ["C06"], [("src/iter.rs", "let next_index = self.index + cmp::min(n, self.len());", "let next_index = cmp::min(self.index + n, self.index_back);")], "C06.N")
+benign("c06-nth-min-form-saturating", ["C06", "C03", "C05"], [("src/iter.rs", "let next_index = self.index + cmp::min(n, self.len());", "let next_index = cmp::min(self.index.saturating_add(n), self.index_back);")])
 benign("c06-next-match-form", ["C06"], [("src/iter.rs", "    fn next(&mut self) -> Option<T> {\n        if self.index < self.index_back {", "    fn next(&mut self) -> Option<T> {\n        if self.index_back > self.index {")])
 
 # ---- C07 ------------------------------------------------------------------------------------
@@ -341,7 +343,7 @@ _RELT = {"T01": ["C01", "C02", "C10", "C12", "C18", "C19"], "T03": ["C03", "C04"
 # reported by C20.R, which knows the size-guarded const_transmute helper only
 # seventh corpus (X<prop>.p<i>, written after seed round 13; the authors were asked to spread the three patches over different functions)
 _RELT.update({"X02": ["C01", "C02", "C03", "C09", "C12", "C18", "C20"], "X03": ["C03", "C04", "C05", "C08", "C09", "C15", "C16"], "X07": ["C03", "C04", "C05", "C07", "C15", "C16", "C17"],
-              "X12": ["C01", "C03", "C09", "C10", "C12", "C18"], "X14": ["C14"], "X16": ["C03", "C04", "C07", "C08", "C15", "C16"], "X17": ["C03", "C04", "C05", "C07", "C12", "C17"]})
+              "X05": ["C03", "C04", "C05", "C06", "C08"], "X12": ["C01", "C03", "C09", "C10", "C12", "C18"], "X14": ["C14"], "X16": ["C03", "C04", "C07", "C08", "C15", "C16"], "X17": ["C03", "C04", "C05", "C07", "C12", "C17"]})
 _SKIPT = {("V14", 3), ("V18", 3), ("X14", 3)}
 for _g, _props in _RELT.items():
     for _i in (1, 2, 3):
@@ -516,3 +518,11 @@ mutant_on_patch("m-X03p3-vec-not-emptied", "X03.p3", ["C15", "C03"], [("src/impl
 mutant_on_patch("m-X03p3-read-one-element-in", "X03.p3", ["C15"], [("src/impl_alloc.rs", "v.as_ptr() as *const GenericArray<T, N>", "v.as_ptr().add(1) as *const GenericArray<T, N>")], "C15.G")
 mutant_on_patch("m-X14p1-digits-swapped", "X14.p1", ["C14"], [("src/hex.rs", "        s[0] = alphabet[usize::from(c / 16)];\n        s[1] = alphabet[usize::from(c % 16)];", "        s[1] = alphabet[usize::from(c / 16)];\n        s[0] = alphabet[usize::from(c % 16)];")], "C14.H8")
 mutant_on_patch("m-X14p2-hint-on-success", "X14.p2", ["C14"], [("src/hex.rs", "    if res.is_err() {", "    if res.is_ok() {")], "C14.H5")
+
+# C06.N: cursor arithmetic that can fail (a panic where checks are on, a wrapped cursor where they are off) although every in-range argument is right
+mutant("c06-nth-back-clamps-the-difference", ["C06"], [("src/iter.rs", "let next_back = self.index_back - cmp::min(n, self.len());", "let next_back = self.index_back - n + (n - cmp::min(n, self.len()));")], "C06.N")
+mutant("c06-len-through-a-sum", ["C06"], [("src/iter.rs", "    fn len(&self) -> usize {\n        self.index_back - self.index\n    }", "    fn len(&self) -> usize {\n        (self.index_back + N::USIZE) - (self.index + N::USIZE)\n    }")], "C06.N")
+
+mutant_on_patch("m-X05p3-nth-everything-skipped-without-the-destroy", "X05.p3", ["C03", "C06"], [("src/iter.rs", "            self.index = self.index_back;\n\n            unsafe { self.drop_detached(skipped) };\n", "            self.index = self.index_back;\n\n            let _ = skipped;\n")], "")
+mutant_on_patch("m-X05p3-nth-back-comparison-off-by-one", "X05.p3", ["C06"], [("src/iter.rs", "        if n >= self.len() {\n            let skipped = self.index..self.index_back;\n            self.index_back = self.index;", "        if n > self.len() {\n            let skipped = self.index..self.index_back;\n            self.index_back = self.index;")], "")
+mutant_on_patch("m-X05p3-nth-destroys-before-advancing", "X05.p3", ["C05"], [("src/iter.rs", "        let skipped = self.index..nth_index;\n        self.index = nth_index;\n\n        unsafe {\n            self.drop_detached(skipped);\n", "        let skipped = self.index..nth_index;\n\n        unsafe {\n            self.drop_detached(skipped);\n            self.index = nth_index;\n")], "")
